@@ -8,9 +8,13 @@
 //! panic), and then it ends in one of three ways, holding its last guard or not:
 //!   Ret(v)       returns v
 //!   Pan(p)       std::panic::panic_any(p)                                   (MAYV_PANIC percent)
-//!   CancelHold   blocks for ever at a cancellable call; main cancels it (either when it got there, or "early":
-//!                at a seeded moment, so that the cancel may hit it inside lock() or inside the critical section)
-//!                                                                          (MAYV_CANCEL percent)
+//!   CancelHold   blocks for ever at a cancellable call (yield_now / sleep / park loop) holding its guard; main cancels
+//!                it when it got there                                       (MAYV_CANCEL percent)
+//!                MAYV_EARLY=1 (not part of the check; replay of O2 on ONE thread): the cancel may also come at a
+//!                seeded earlier moment and hit the coroutine inside lock(); the cancellation unwind then drops the
+//!                SyncBlocker, Park::drop waits for the kernel half with yield_now - the coroutine is suspended INSIDE
+//!                its unwinding, and std::thread::panicking() is true for every other coroutine the worker runs
+//!                meanwhile: a well-behaved one that drops a Mutex guard normally POISONS the Mutex.
 //! MAYV_SCOPE=1 adds a scoped owner per round: it takes a Mutex, opens coroutine::scope with a child that panics
 //! (payload p) and possibly a well-behaved one: the panic must be re-raised in the owner (join(owner) = Err(p)), the
 //! owner's guard must poison and release.  MAYV_SELECT=1 does the same with select! (a panicking top half).
@@ -136,6 +140,7 @@ struct Sh {
     d1: bool,
     r_unwind: bool,
     nosleep: bool,
+    early: bool,
     locks: Vec<LockSt>,
     exec: Vec<AtomicU32>,
     ready: Vec<AtomicBool>,
@@ -187,7 +192,7 @@ fn plan(sh: &Sh, j: usize) -> Plan {
     if sh.nosleep && block_how == 1 {
         block_how = 0;
     }
-    Plan { ops, hold_at_end, end, early_cancel: r.below(2) == 0, block_how }
+    Plan { ops, hold_at_end, end, early_cancel: sh.early && r.below(2) == 0, block_how }
 }
 
 /// dropped BEFORE the guard (declared after it): leaves the critical section
@@ -416,6 +421,9 @@ fn body(sh: Arc<Sh>, j: usize) -> u64 {
                     return finish(&sh, j, &p, Some((l, LK::M, &after)));
                 }
                 drop(occ);
+                if std::thread::panicking() && std::env::var("MAYV_TLSCHECK").is_ok() {
+                    println!("NOTE body {j} drops its Mutex guard NORMALLY while thread::panicking() = true on thread {}", mayv::tid());
+                }
                 drop(g);
                 drop(after);
             }
@@ -589,6 +597,7 @@ fn main() {
         d1: envn("MAYV_D1", 0) != 0,
         r_unwind: envn("MAYV_RUNWIND", 0) != 0,
         nosleep: envn("MAYV_NOSLEEP", 0) != 0,
+        early: envn("MAYV_EARLY", 0) != 0,
         locks: (0..nlocks)
             .map(|_| LockSt {
                 m: Mutex::new(0),
